@@ -70,7 +70,7 @@ type c04cfg struct {
 	beh         map[string]c04beh
 	writeBuf    int           // WriteBufferSize (0 = default 4096); smaller than a request head: every request write hits the connection inside Request.Write
 	wstall      time.Duration // /v only: slow-peer fault dimension, any connection Write may block for that long (mcrt.Env, one deviation each)
-	vconn       bool // connections to the thread-less serial server model (c04_vserver_test.go) instead of PipeConns + server thread
+	vconn       bool          // connections to the thread-less serial server model (c04_vserver_test.go) instead of PipeConns + server thread
 }
 
 type c04res struct {
@@ -380,10 +380,14 @@ func TestVerif_C04(t *testing.T) {
 	defer r.End()
 	r.Rule("closed systems: real HostClient (MaxConns 1-2, StreamResponseBody on/off, ReadTimeout/DoTimeout on the virtual clock, MaxConnWaitTimeout) or PipelineClient (MaxConns 1, MaxPendingRequests 2) " +
 		"with 1-3 caller threads x 1-2 calls against in-world servers (PipeConns + server thread, or a thread-less serial server model) that tag each response with the request id and vary framing, keep-alive/close, one/two writes with a delay, close mid-body, stall; " +
-		"streamed bodies are read fully / partly then CloseBodyStream / closed unread; all schedules, select choices and timer-first orders up to the deviation bound are executed; " +
+		"streamed bodies are read fully / partly then CloseBodyStream / closed unread; " +
+		"slow-peer fault dimension (*/write-stalls/*): any connection Write may block for 2 s of virtual time (environment choice, one deviation per stalled Write; honours the write deadline: then half of the bytes were taken and a timeout is returned), " +
+		"with WriteBufferSize 32 (< request head, so Request.Write itself hits the connection) or a 5000-byte POST body (> default buffer), so a call's deadline can expire after its request bytes started to reach the wire and before the write returns, followed by 1-2 more calls on the same client; " +
+		"all schedules, select choices and timer-first orders up to the deviation bound are executed; " +
 		"oracle per execution: every call returning nil has X-Id == its request id, status 200 and body == the server's body for that id (streamed: a prefix, the whole body on EOF); non-trivial: executions with >=1 deviation")
 	r.Assume("mcrt shim semantics (litmus-tested)", "sync.Pool modelled as deterministic LIFO", "HostClient idle-connection cleaner not started (connsCleanerRun preset; C18 covers it)",
-		"response bodies may contain arbitrary bytes, including text shaped like an HTTP message", "scenarios named */v use a harness net.Conn whose peer is a serial server model on the virtual clock")
+		"response bodies may contain arbitrary bytes, including text shaped like an HTTP message", "scenarios named */v use a harness net.Conn whose peer is a serial server model on the virtual clock",
+		"a stalled Write takes either all bytes after the stall or, when the write deadline comes first, exactly half of them (no other partial-write sizes are enumerated)")
 	var scs []mcx.Scenario
 	add := func(name string, qb, tb int, tf bool, cfg c04cfg) {
 		if f := os.Getenv("VERIF_SCENARIO"); f != "" && !strings.Contains(name, f) {
